@@ -49,7 +49,7 @@ Vers == {1, 2}
 NoEntry == [ver |-> 0, from |-> 0, lastMod |-> 0]
 
 Init == /\ content = [i \in Slots |-> [n \in Names |-> 0]]
-        /\ mtime = [i \in Slots |-> [n \in Names |-> 0]]
+        /\ mtime = [i \in Slots |-> [n \in Names |-> -1]]      \* no stamp yet: the first one a name gets is 0 (a loader may count from 0)
         /\ loads = [i \in Loaders |-> [n \in Names |-> 0]]
         /\ cache = [n \in Names |-> NoEntry]
         /\ cacheOn = TRUE /\ autoReload = InitAuto /\ clock = 1
